@@ -106,6 +106,17 @@ def make_source(draw, ident, profile="mixed", msm_cells=64, fixed=None):
         if key == "DF395":
             nsat = w.vals["NSat"]
             lim = 32 if (nsat == 0 or msm_cells is None) else min(32, msm_cells // nsat)
+            if lim and draw(st.booleans()):
+                # bias to signal IDs the standard defines for this constellation (pins), so RINEX codes are exercised
+                from pv import pins
+
+                ids = sorted(pins.RINEX[pins.CONS[ident[:3]]])
+                k = draw(st.integers(1, min(lim, len(ids))))
+                chosen = draw(st.lists(st.sampled_from(ids), min_size=k, max_size=k, unique=True))
+                r = 0
+                for g in chosen:
+                    r |= 1 << (32 - g)
+                return r
             return draw_mask(draw, 32, lim)
         if key == "DF396":
             k = draw(st.integers(0, 5))
